@@ -586,14 +586,29 @@ func (t *treeRun) sequenceChecks() {
 		return
 	}
 	sort.SliceStable(plain, func(i, j int) bool { return plain[i].CreatedSeq < plain[j].CreatedSeq })
-	w := plain[0]
+	// the witness is the subscriber that saw most (the earliest among equals):
+	// every sequence is a suffix of the one published sequence, so the shorter of
+	// two is a suffix of the longer.  Creation order alone does not say which one
+	// is longer - a subscriber created later below a clone still receives events
+	// that were in flight inside the clone when an earlier, direct subscriber of
+	// the root was created after the root had already distributed them.
+	wi := 0
+	for i, n := range plain {
+		if !t.closedByScenario(n) && (t.closedByScenario(plain[wi]) || len(n.Events) > len(plain[wi].Events)) {
+			wi = i
+		}
+	}
+	w := plain[wi]
 	ws := world.Sigs(w.Events)
-	for _, n := range plain[1:] {
+	for i, n := range plain {
+		if i == wi {
+			continue
+		}
 		ns := world.Sigs(n.Events)
 		// events received by n while it was alive must be a contiguous run of the
 		// witness sequence; if both lived to the end, a suffix
-		if len(ns) > len(ws) {
-			detsim.Fail("subscriber-sequence-mismatch", "%s received %d events, the earlier %s only %d\n  %s: %v\n  %s: %v", n.Name(), len(ns), w.Name(), len(ws), n.Name(), ns, w.Name(), ws)
+		if len(ns) > len(ws) && !t.closedByScenario(w) {
+			detsim.Fail("subscriber-sequence-mismatch", "%s received %d events, the witness %s only %d\n  %s: %v\n  %s: %v", n.Name(), len(ns), w.Name(), len(ws), n.Name(), ns, w.Name(), ws)
 		}
 		if t.closedByScenario(n) || t.closedByScenario(w) {
 			if !containsRun(ws, ns) && !t.closedByScenario(w) {
